@@ -285,25 +285,35 @@ def run(ctx):
                 ([] if np.asarray(soln.soln_ineqcv).size == 0 else [10 ** 6])
             c["unchanged"] = snapshot(prob) == before
             if climber:
-                # trajectory from the evaluation log: [start?] then rounds of k*(n-k) proposals; in a round the first proposal
-                # differs from the current solution at position 0 only and the last at position k-1 only
+                # trajectory from the evaluation log, independent of the order in which a round scans the neighbourhood:
+                # the single-candidate evaluations of the sorting variants and the evaluation of the start are followed by
+                # rounds of k*(n-k) proposals; the solution of a round is the k-subset whose complete exchange neighbourhood
+                # is exactly that round's set of proposals (if two subsets qualify: the one reachable from the previous round)
+                import itertools as _it
                 per = k * (n - k)
-                start_eval = n + 1 if name.startswith("Sorting") else 1
-                body = log[start_eval:]
-                states = [log[start_eval - 1]]
-                okr = len(body) % per == 0 and len(body) >= per
+                full = [sorted(x) for x in log if len(x) == k and len(set(x)) == k]
+                singles = n if name.startswith("Sorting") and k != 1 else 0
+                evs_ = [x for x in log]
+                start_eval = (n + 1) if name.startswith("Sorting") else 1
+                body = [frozenset(x) for x in log[start_eval:]]
+                states = [list(log[start_eval - 1])]
+                okr = per > 0 and len(body) % per == 0 and len(body) >= per and all(len(x) == k for x in body)
                 if okr:
+                    allk = [frozenset(cmb) for cmb in _it.combinations(space, k)] if n <= 10 else []
+                    def nbh(S):
+                        return {frozenset((S - {i_}) | {j_}) for i_ in S for j_ in set(space) - S}
+                    prev_props = set()
                     for r in range(len(body) // per):
-                        rd = body[r * per:(r + 1) * per]
-                        cur = list(rd[0]) if k == 1 else [rd[-1][0]] + list(rd[0][1:])
-                        if k == 1:
-                            # position 0 is swapped in every proposal; the current member is the one never proposed
-                            # in this round and not outside the candidate set
-                            prop = set(v[0] for v in rd)
-                            rest = [v for v in space if v not in prop]
-                            cur = rest[:1] if len(rest) == 1 else states[-1]
-                        if sorted(cur) != sorted(states[-1]):
-                            states.append(cur)
+                        rd = set(body[r * per:(r + 1) * per])
+                        cands = [S for S in allk if nbh(S) == rd]
+                        cur_prev = frozenset(states[-1])
+                        pick = [S for S in cands if S == cur_prev or S in prev_props]
+                        if len(rd) != per or len(pick) != 1:
+                            okr = False; break
+                        if pick[0] != cur_prev:
+                            states.append(sorted(pick[0]))
+                        prev_props = rd
+                if okr:
                     c["states"] = [[pos.get(v, -1) for v in s] for s in states]
                 else:
                     c["states"] = [c["decn"]]            # trajectory not reconstructible: the end point is still validated
